@@ -5,6 +5,7 @@
 //! their own case descriptions; see README.md.
 
 use crate::codecs::CodecCase;
+use crate::scale::ScaleCase;
 use crate::dec::DecCase;
 use crate::docs::{SnapCase, SvCase};
 use crate::json::J;
@@ -16,7 +17,7 @@ use std::sync::atomic::{AtomicBool, AtomicUsize, Ordering};
 use std::time::Instant;
 
 pub const TARGETS: &str =
-    "awareness | syncmsg | proto_all | snapshot | svsync | snap_all | decoders | codecs | dec_all";
+    "awareness | syncmsg | proto_all | snapshot | svsync | snap_all | decoders | codecs | codecs_scale | dec_all";
 
 /// The individual targets behind a CLI target name.
 pub fn targets_for(target: &str) -> Option<Vec<&'static str>> {
@@ -28,8 +29,9 @@ pub fn targets_for(target: &str) -> Option<Vec<&'static str>> {
         "svsync" => Some(vec!["svsync"]),
         "snap_all" => Some(vec!["snapshot", "svsync"]),
         "decoders" => Some(vec!["decoders"]),
-        "codecs" => Some(vec!["codecs"]),
-        "dec_all" => Some(vec!["decoders", "codecs"]),
+        "codecs" => Some(vec!["codecs", "codecs_scale_small"]),
+        "codecs_scale" => Some(vec!["codecs_scale"]),
+        "dec_all" => Some(vec!["decoders", "codecs", "codecs_scale"]),
         _ => None,
     }
 }
@@ -70,6 +72,7 @@ pub enum XCase {
     Sv(SvCase),
     Dec(DecCase),
     Codec(CodecCase),
+    Scale(ScaleCase),
 }
 
 /// What running a case yields when nothing disagrees: `false` if the case
@@ -86,6 +89,7 @@ impl XCase {
             XCase::Sv(_) => "svsync",
             XCase::Dec(_) => "decoders",
             XCase::Codec(_) => "codecs",
+            XCase::Scale(_) => crate::scale::TARGET,
         }
     }
 
@@ -98,6 +102,7 @@ impl XCase {
             XCase::Sv(c) => c.describe(),
             XCase::Dec(c) => c.describe(),
             XCase::Codec(c) => c.describe(),
+            XCase::Scale(c) => c.describe(),
         }
     }
 
@@ -117,6 +122,7 @@ impl XCase {
             "svsync" => Ok(XCase::Sv(SvCase::from_json(op)?)),
             "decoders" => Ok(XCase::Dec(DecCase::from_json(variant, op)?)),
             "codecs" => Ok(XCase::Codec(CodecCase::from_json(variant, op)?)),
+            "codecs_scale" => Ok(XCase::Scale(ScaleCase::from_json(op)?)),
             other => Err(format!("unknown target {:?}", other)),
         }
     }
@@ -129,6 +135,7 @@ impl XCase {
             XCase::Sv(c) => c.run(),
             XCase::Dec(c) => c.run().map(|_| true),
             XCase::Codec(c) => c.run().map(|_| true),
+            XCase::Scale(c) => c.run().map(|_| true),
         }
     }
 
@@ -142,6 +149,7 @@ impl XCase {
             XCase::Sv(c) => c.actual_json(),
             XCase::Dec(c) => c.actual_json(),
             XCase::Codec(c) => c.actual_json(),
+            XCase::Scale(c) => c.actual_json(),
         }
     }
 }
@@ -315,6 +323,8 @@ pub fn cmd_search(target: &str, parts: &[&'static str], jobs: usize, deadline: O
             "svsync" => crate::docs::search_svsync(&mut r),
             "decoders" => crate::dec::search_decoders(&mut r),
             "codecs" => crate::codecs::search_codecs(&mut r),
+            "codecs_scale" => crate::scale::search_scale(&mut r),
+            "codecs_scale_small" => crate::scale::search_scale_small(&mut r),
             _ => Ok(()),
         };
         per_target.push((*part, J::Num((r.cases - before) as i64)));
@@ -351,7 +361,7 @@ pub fn cmd_search(target: &str, parts: &[&'static str], jobs: usize, deadline: O
 pub fn owns(j: &J) -> bool {
     matches!(
         j.get("target").and_then(|t| t.as_str()),
-        Some("awareness") | Some("syncmsg") | Some("snapshot") | Some("svsync") | Some("decoders") | Some("codecs")
+        Some("awareness") | Some("syncmsg") | Some("snapshot") | Some("svsync") | Some("decoders") | Some("codecs") | Some("codecs_scale")
     )
 }
 
